@@ -56,7 +56,7 @@ def two_byte_domain(tier):
 
 def units(tier):
     us = [{"kind": "const"}, {"kind": "validators", "sub": "Byte"}, {"kind": "validators", "sub": "other"},
-          {"kind": "check"}, {"kind": "enum"}, {"kind": "flags"}, {"kind": "mapping"}]
+          {"kind": "check"}, {"kind": "enum"}, {"kind": "flags"}, {"kind": "mapping"}, {"kind": "validators-derived"}]
     if tier == "thorough":
         us.append({"kind": "validators", "sub": "Int16ul"})
     names = [w[0] for w in parse_wrappers()]
@@ -75,6 +75,8 @@ def run_unit(unit, tier):
         run_const(tier, r)
     elif k == "validators":
         run_validators(unit["sub"], tier, r)
+    elif k == "validators-derived":
+        run_validators_derived(r)
     elif k == "check":
         run_check_(tier, r)
     elif k == "enum":
@@ -268,6 +270,46 @@ def run_validators_other(r):
         r.sample({"validator": name, "values": len(domain)}, cap=2)
 
 
+def run_validators_derived(r):
+    """validators (and Mapping/Enum) over fields that make up their own value when built from nothing (Default, Const, Rebuild):
+    whatever build serialises, the same construct must admit on parse - for every derived value inside and outside the predicate,
+    built directly from None and as a Struct member whose key is absent"""
+    import construct as C
+    subs = {"Default": lambda v: C.Default(C.Byte, v), "Const": lambda v: C.Const(v, C.Byte), "Rebuild": lambda v: C.Rebuild(C.Byte, v),
+            "Rebuild-expr": lambda v: C.Rebuild(C.Byte, C.this._params.k + v), "Default(Default)": lambda v: C.Default(C.Default(C.Byte, 0), v)}
+    S = [1, 2, 3]
+    vals = [C.OneOf, C.NoneOf]
+    makers = {
+        "OneOf": lambda sub: C.OneOf(sub, S), "NoneOf": lambda sub: C.NoneOf(sub, S), "OneOf-set": lambda sub: C.OneOf(sub, set(S)),
+        "ExprValidator": lambda sub: C.ExprValidator(sub, C.obj_ < 3), "ExprValidator-lambda": lambda sub: C.ExprValidator(sub, lambda obj, ctx: obj in S),
+        "Mapping": lambda sub: C.Mapping(sub, {"a": 1, "b": 2}), "Enum": lambda sub: C.Enum(sub, a=1, b=2),
+        "OneOf(Hex)": lambda sub: C.OneOf(C.Hex(sub), S),
+    }
+    for sname, mksub in subs.items():
+        for vname, mkval in makers.items():
+            for v in (0, 1, 2, 3, 4, 9, 255):
+                d = mkval(mksub(v))
+                for form, build, parse in (("direct", lambda: d.build(None, k=0), lambda b: d.parse(b, k=0)),
+                                           ("struct-member", lambda: C.Struct("m" / d).build({}, k=0), lambda b: C.Struct("m" / d).parse(b, k=0)),
+                                           ("struct-none", lambda: C.Struct("m" / d).build({"m": None}, k=0), lambda b: C.Struct("m" / d).parse(b, k=0))):
+                    r.states += 1
+                    g = outcome(build)
+                    case = {"t": "validator-derived", "sub": sname, "validator": vname, "value": v, "form": form}
+                    if g[0] == "hang":
+                        V(r, "validator-derived/build-hang", case, "%s(%s(%d)) %s build from nothing did not terminate" % (vname, sname, v, form))
+                        continue
+                    # (a predicate applied to None may raise, e.g. None < 3: that is the user's expression, no claim)
+                    if g[0] != "ok":
+                        r.case(nontrivial=True, outcome="build-refuses", transitions=1, validated=1)
+                        continue
+                    back = outcome(lambda: parse(g[1]))
+                    r.case(nontrivial=True, outcome="build-emits", transitions=2, validated=2)
+                    if back[0] != "ok" and vname not in ("Enum",):
+                        V(r, "validator-derived/build-serialises-what-parse-refuses/%s" % vname.split("-")[0].split("(")[0], case,
+                          "%s(%s(%d)) built from nothing (%s) emits %s, which the same construct refuses to parse: %r" % (vname, sname, v, form, g[1].hex(), back))
+    r.sample({"validators_over_derived_fields": sorted(makers), "derived": sorted(subs), "values": [0, 1, 2, 3, 4, 9, 255]})
+
+
 def run_check_(tier, r):
     import construct as C
     this = C.this
@@ -368,7 +410,10 @@ def run_enum(tier, r):
         sub = d.subcon
         for label, val in mapping.items():
             want = outcome(lambda: sub.build(val))
-            spellings = [("str", label), ("attr", getattr(d, label)), ("EnumIntegerString", C.EnumIntegerString.new(val, label))]
+            # a label object is a str: it is looked up by name, whatever integer it carries (e.g. a label parsed by another Enum)
+            spellings = [("str", label), ("attr", getattr(d, label)), ("EnumIntegerString", C.EnumIntegerString.new(val, label)),
+                         ("foreign-label-object", C.EnumIntegerString.new(val + 1, label)), ("foreign-label-object-0", C.EnumIntegerString.new(0, label)),
+                         ("str-subclass", type("S", (str,), {})(label))]
             for sp, v in spellings:
                 r.states += 1
                 b = outcome(lambda: d.build(v))
@@ -382,7 +427,8 @@ def run_enum(tier, r):
                 r.case(key=("enum-member", name, m.name), outcome="label", validated=1)
                 if b != ("ok", bytes([m.value])):
                     V(r, "enum/build-intenum-member", {"t": "enum", "inst": name, "label": m.name, "spelling": "IntEnum"}, repr(b))
-        for bad in ("nope", "", "A", b"a", 1.5, None, ("a",)):
+        for bad in ("nope", "", "A", b"a", 1.5, None, ("a",), C.EnumIntegerString.new(1, "nope"), C.EnumIntegerString.new(2, "A"),
+                    C.Enum(C.Byte, other=1).other):
             if bad in mapping:
                 continue
             r.states += 1
@@ -759,6 +805,9 @@ def replay(case):
         run_validators(case["sub"], "thorough", r)
     elif t == "validator-other":
         run_validators_other(r)
+    elif t == "validator-derived":
+        run_validators_derived(r)
+        return [v for v in r.violations if v["case"] == case]
     elif t == "check":
         run_check_("thorough", r)
     elif t == "enum":
